@@ -131,8 +131,9 @@ class Report:
               "assumptions": self.assumptions, "wall_s": round(wall, 3), "violations": len(self.violations)}
         if self.broken_reasons:
             ev["analysis_broken"] = ["%s: %s" % x for x in self.broken_reasons]
-        os.makedirs(os.path.join(VERIF, "evidence"), exist_ok=True)
-        with open(os.path.join(VERIF, "evidence", "%s.json" % self.prop), "w") as f:
+        evdir = os.environ.get("LHSA_EVIDENCE", os.path.join(VERIF, "evidence"))     # regression runs on scratch copies keep their evidence apart
+        os.makedirs(evdir, exist_ok=True)
+        with open(os.path.join(evdir, "%s.json" % self.prop), "w") as f:
             json.dump(ev, f, indent=1, default=str)
         for rid in self.order:
             r = self.rules[rid]
@@ -151,7 +152,7 @@ class Report:
             if not self.violations:
                 return 2
         if self.violations:
-            rd = os.path.join(VERIF, "evidence", "replay")
+            rd = os.path.join(os.environ.get("LHSA_EVIDENCE", os.path.join(VERIF, "evidence")), "replay")
             os.makedirs(rd, exist_ok=True)
             for n, v in enumerate(self.violations):
                 p = os.path.join(rd, "%s_%s_%d.json" % (self.prop, re.sub(r"\W+", "_", v["rule"]), n))
